@@ -130,7 +130,7 @@ single output with a fee rate (`OutputWithFee`, script given or wallet-derived),
 theorem C07_close_conserves (so : ScriptOf) (a : Account) (fe : FeeExpr) (ws : Bool → Script) (best : UInt32)
     (f : Faults) (h : (close so a fe ws best f).refusal = none) :
     ∃ (outs : List TxOut) (tx : Tx) (acct' : Account) (w : Nat) (pre : List Effect),
-      ¬ (a.state = StatePendingClosed ∨ a.state = StateClosed) ∧
+      (a.state = StateOpen ∨ a.state = StateExpired) ∧
       fe.closeOutputs ws a.value (determineWitnessType a best) = .ok outs ∧
       (close so a fe ws best f).tx = some tx ∧ (close so a fe ws best f).account = some acct' ∧
       (close so a fe ws best f).trace = pre ++ [.storeWrite acct', .publish tx] ∧
@@ -302,7 +302,7 @@ theorem C07_refusals_no_effect (so : ScriptOf) (a : Account) (best : UInt32) (f 
         (MinAccountValue : Int) ≤ v)) ∧
     -- closure
     (∀ fe ws, (close so a fe ws best f).trace ≠ [] →
-      ¬ (a.state = StatePendingClosed ∨ a.state = StateClosed) ∧
+      (a.state = StateOpen ∨ a.state = StateExpired) ∧
       ∃ outs, fe.closeOutputs ws a.value (determineWitnessType a best) = .ok outs ∧
         (∀ o ∈ outs, isDustOutput o = false ∧ 0 ≤ o.value) ∧ sumValues outs ≤ a.value) ∧
     -- deposit
